@@ -4,6 +4,7 @@ import (
 	"crypto/ecdsa"
 	"fmt"
 	mrand "math/rand"
+	"strings"
 	"time"
 
 	"verifharness/mon"
@@ -207,6 +208,48 @@ func c06(x *mon.Ctx) {
 			}
 		}
 	}
+	// a nextUpdate that is the zero instant of the time type (year 1, in any spelling), or no nextUpdate at all: a signed document
+	// that says it ran out in the year 1 has run out; "no end stated" is not a licence without end (the reference reads a missing
+	// member as unparsable)
+	for di, doc := range []string{"tcbinfo-doc", "qeidentity-doc"} {
+		for style := 0; style < 8; style++ {
+			w := c06Build(k, r, nil)
+			edit := func(js string) string { return js }
+			name := fmt.Sprintf("year-1/style%d", style)
+			if style >= 6 {
+				name = []string{"member-absent", "member-null"}[style-6]
+				edit = func(js string) string {
+					i := strings.Index(js, `"nextUpdate":"`)
+					j := i + len(`"nextUpdate":"`) + strings.Index(js[i+len(`"nextUpdate":"`):], `"`) + 1
+					if style == 6 {
+						return js[:i] + js[j+1:] // with the comma behind it
+					}
+					return js[:i] + `"nextUpdate":null` + js[j:]
+				}
+			}
+			if di == 0 {
+				w.Tcb.NextUpdate, w.Tcb.TimeStyle = time.Time{}, style
+				w.TcbBody = world.SignedBody("tcbInfo", edit(w.Tcb.JSON()), k.tcb)
+			} else {
+				w.Qe.NextUpdate, w.Qe.TimeStyle = time.Time{}, style
+				w.QeBody = world.SignedBody("enclaveIdentity", edit(w.Qe.JSON()), k.qe)
+			}
+			for _, lvl := range []int{world.LColl, world.LCrl} {
+				for ti, tm := range []time.Time{world.Epoch, world.Epoch.Add(-3000 * world.Day), time.Date(1, 1, 1, 0, 0, 1, 0, time.UTC)} {
+					w2 := w.Clone()
+					for j := range w2.Times {
+						w2.Times[j] = world.Epoch
+					}
+					w2.Times[[]int{world.TTcbInfo, world.TQeIdentity}[di]] = tm
+					exp := "reject"
+					if style >= 6 {
+						exp = ""
+					}
+					add(w2, lvl, "next-update-zero-instant/"+doc, fmt.Sprintf("%s/t%d", name, ti), exp)
+				}
+			}
+		}
+	}
 	// notBefore of the path-validated certificates
 	S := world.Epoch.Add(-100 * world.Day)
 	for _, role := range c06NotBefore {
@@ -272,6 +315,8 @@ func c06(x *mon.Ctx) {
 		x.Require("notbefore-boundary/"+role, 2, 1, 3)
 	}
 	x.Require("random-windows", 5, 100, 300)
+	x.Require("next-update-zero-instant/tcbinfo-doc", 0, 36, 48)
+	x.Require("next-update-zero-instant/qeidentity-doc", 0, 36, 48)
 	x.Extra["exhaustive"] = true
 	x.Extra["roles"] = c06Roles
 }
